@@ -37,6 +37,7 @@ package directinvoke
 //@ func ReceiveDirectInvoke
 //@   modifies httpOut, MaxDirectResponseSize, InvokeResponseMode, ResponseBandwidthRate, ResponseBandwidthBurstSize
 //@   ensures [rejected-is-nil] r1 != nil ==> r0 == nil && ghost(httpStatus) == 400
+//@   ensures [a-refused-request-leaves-the-settings-of-the-accepted-one-alone] r1 != nil ==> unchanged(MaxDirectResponseSize, InvokeResponseMode, ResponseBandwidthRate, ResponseBandwidthBurstSize)
 //@   ensures [size-from-request-only] r1 == nil ==> MaxDirectResponseSize == diMaxSize(r) && MaxDirectResponseSize >= -1
 //@   ensures [mode-from-request-only] r1 == nil ==> InvokeResponseMode == diMode(r) && r0.InvokeResponseMode == diMode(r)
 //@   ensures [rate-from-request-only] r1 == nil && diStreaming(r) ==> ResponseBandwidthRate == diRate(r) && interop.MinResponseBandwidthRate <= ResponseBandwidthRate && ResponseBandwidthRate <= interop.MaxResponseBandwidthRate
